@@ -1418,6 +1418,7 @@ func init() {
 			runtime.GOMAXPROCS(1)
 			env := &c14Env{up: world.NewUpstream("u"), seed: c.Seed}
 			defer env.up.Close()
+			c14FaultBurst(c, env.up)
 			scs := c14Scenarios()
 			bound := 1
 			if !c.Quick() {
@@ -1516,4 +1517,84 @@ func init() {
 
 func envStr(name string) string {
 	return strings.TrimSpace(os.Getenv(name))
+}
+
+// c14FaultBurst: "... and keeps handling other requests without crashing" after MANY failures, not only
+// after one. Forty logins in a row meet a transport-level failure (connection reset) at one provider
+// endpoint; then the provider is well again and a login has to succeed. A resource taken per provider call
+// and given back only on the success path (a slot of a limiter, a pooled connection) runs out this way.
+// The final login is given 10 s of real time — spent only if it hangs.
+func c14FaultBurst(c *Ctx, up *world.Upstream) {
+	if c.Shards > 1 && c.Shard != c.Shards-1 {
+		return
+	}
+	for _, name := range []string{"validate-url-login", "login"} {
+		sc := c14Find(name)
+		if sc == nil {
+			continue
+		}
+		for _, ep := range []string{"token", "userinfo", "validate", "jwks"} {
+			world.ResetClock()
+			idp := world.NewIdP()
+			px, err := buildProxy(&ProxyCfg{Flags: sc.flags(up.URL())})
+			if err != nil {
+				c.Error("C14 fault burst: %s does not build: %v", name, err)
+				return
+			}
+			hit := 0
+			idp.Intercept = func(cl *world.Call, _ *http.Request) *world.Fault {
+				if cl.Endpoint != ep {
+					return nil
+				}
+				hit++
+				return &world.Fault{Kind: "reset", Respond: func(*http.Request, func() *http.Response) (*http.Response, error) {
+					return nil, errors.New("read tcp 192.0.2.1:40000->192.0.2.2:443: read: connection reset by peer")
+				}}
+			}
+			for i := 0; i < 40; i++ {
+				b := newBrowser(px, "http", c14Host)
+				if resp, _, lerr := b.Login(idp, "alice", "/page"); lerr == nil && resp.Panic != nil {
+					c.Violate("C14/panic@"+resp.PanicSite(), fmt.Sprintf("%s: login %d of a burst of transport failures at %s panics: %v", name, i, ep, resp.Panic), 40, map[string]any{"kind": "fault-burst", "scenario": name, "endpoint": ep})
+				}
+			}
+			idp.Intercept = nil
+			if hit == 0 {
+				continue // this flow does not call that endpoint
+			}
+			c.Inc("evaluations")
+			c.Inc("fault_bursts")
+			type fin struct {
+				status int
+				served bool
+			}
+			done := make(chan fin, 1)
+			go func() {
+				b := newBrowser(px, "http", c14Host)
+				resp, _, lerr := b.Login(idp, "bob", "/page")
+				f := fin{}
+				if lerr == nil {
+					f.status = resp.Status
+					if resp.Status == 302 {
+						up.Take()
+						r := b.Get("/page")
+						f.served = r.Status == 200 && len(up.Take()) > 0
+					}
+				}
+				done <- f
+			}()
+			cs := map[string]any{"kind": "fault-burst", "scenario": name, "endpoint": ep, "transport_failures": hit}
+			select {
+			case f := <-done:
+				if f.served {
+					c.Inc("fault_bursts_followed_by_a_working_login")
+				} else {
+					c.Violate("C14/"+sc.Flow+"/unusable-after-burst-of-transport-failures", fmt.Sprintf("%s: after %d transport failures at %s in a row the provider is well again, but a login does not succeed (callback status %d)", name, hit, ep, f.status), 40, cs)
+				}
+			case <-time.After(10 * time.Second):
+				c.Violate("C14/"+sc.Flow+"/hangs-after-burst-of-transport-failures", fmt.Sprintf("%s: after %d transport failures at %s in a row the provider is well again, but a login does not come back within 10 s (provider calls no longer complete)", name, hit, ep), 40, cs)
+				return
+			}
+		}
+	}
+	world.NewIdP()
 }
